@@ -278,6 +278,27 @@ func (seg *Segmenter) splitParagraphByBidi(text Input, start, end int, def bidi.
 		push(currentInput)
 		input.RunStart = currentInput.RunEnd
 	}
+
+	// rule L1 : the paragraph separator has the level of the paragraph,
+	// whatever the direction of the text it follows
+	if props, _ := bidi.LookupRune(text.Text[end-1]); props.Class() == bidi.B && len(seg.output) > firstOutput {
+		parProgression := di.FromTopLeft
+		if def == bidi.RightToLeft {
+			parProgression = di.TowardTopLeft
+		}
+		last := &seg.output[len(seg.output)-1]
+		if last.RunEnd == end && last.Direction.Progression() != parProgression {
+			separator := *last
+			separator.RunStart = end - 1
+			separator.Direction.SetProgression(parProgression)
+			if last.RunStart >= end-1 { // the separator was alone
+				seg.output = seg.output[:len(seg.output)-1]
+			} else {
+				last.RunEnd = end - 1
+			}
+			push(separator)
+		}
+	}
 }
 
 // lookupDelimIndex binary searches in the list of the paired delimiters,
